@@ -71,22 +71,25 @@ type Weights struct {
 
 // Profile parameterises the program builder.
 type Profile struct {
-	Name       string
-	MinLen     int // target static length (constructs are added until reached)
-	MaxLen     int
-	PoolMin    int
-	PoolMax    int
-	MemSizes   []int
-	W          Weights
-	TakenPct   int  // desired share of taken conditional branches
-	Hostile    bool // shadows of taken branches hold hostile instructions
-	OOBShadow  bool // hostile shadows may access out-of-bounds addresses
-	ErrShadow  bool // hostile shadows may hold a division by the zero register
-	ZeroRaPct  int  // chance (in %) that zero / ra join the pool
-	MaxDyn     int  // bound on the dynamic instruction count
-	LoadsOnly  bool
-	NoSubword  bool
-	LineSpread bool // memory addresses spread over many lines (one role per line)
+	Name          string
+	MinLen        int // target static length (constructs are added until reached)
+	MaxLen        int
+	PoolMin       int
+	PoolMax       int
+	MemSizes      []int
+	W             Weights
+	TakenPct      int  // desired share of taken conditional branches
+	Hostile       bool // shadows of taken branches hold hostile instructions
+	OOBShadow     bool // hostile shadows may access out-of-bounds addresses
+	ErrShadow     bool // hostile shadows may hold a division by the zero register
+	ZeroRaPct     int  // chance (in %) that zero / ra join the pool
+	MaxDyn        int  // bound on the dynamic instruction count
+	LoadsOnly     bool
+	NoSubword     bool
+	LineSpread    bool // memory addresses spread over many lines (one role per line)
+	SplitHalves   bool // loads read the lower half of memory, stores write the upper half
+	SlowBranchPct int  // chance (in %) that a branch operand is produced by a load right before it
+	FreshLinePct  int  // chance (in %) that a memory access goes to a line not touched before
 }
 
 // Builder constructs a program concolically: it knows the concrete
@@ -294,6 +297,9 @@ func (b *Builder) baseFor(ea int32) (int, int32) {
 func (b *Builder) Load() {
 	op := b.memOp(loadOps)
 	ea := b.addr(ref.AccessSize(op), "ea")
+	if b.P.SplitHalves {
+		ea = ea % (int32(len(b.Init.Mem)) / 2)
+	}
 	base, off := b.baseFor(ea)
 	b.emit(ref.Ins{Op: op, Rd: b.dest("rd"), Rs1: base, Imm: off})
 }
@@ -302,6 +308,10 @@ func (b *Builder) Load() {
 func (b *Builder) Store() {
 	op := b.memOp(storeOps)
 	ea := b.addr(ref.AccessSize(op), "ea")
+	if b.P.SplitHalves {
+		half := int32(len(b.Init.Mem)) / 2
+		ea = half + ea%half
+	}
 	base, off := b.baseFor(ea)
 	b.emit(ref.Ins{Op: op, Rs2: b.reg("src"), Rs1: base, Imm: off})
 }
@@ -408,6 +418,29 @@ func (b *Builder) Branch() {
 	in := ref.Ins{Op: rapid.SampledFrom(condOps).Draw(b.t, "cond"), Rs1: b.reg("rs1"), Rs2: b.reg("rs2")}
 	if ref.Shape(in.Op) == ref.ShapeBr1 {
 		in.Rs2 = 0
+	}
+	if known && b.P.SlowBranchPct > 0 && rapid.IntRange(0, 99).Draw(b.t, "slowbr") < b.P.SlowBranchPct {
+		// the operand comes from a load issued right before the branch (hit or
+		// miss), or from an ALU instruction: the branch resolves late
+		opnd := in.Rs1
+		if opnd == 0 || b.noDest[opnd] {
+			opnd = b.dest("slowopnd")
+			in.Rs1 = opnd
+		}
+		if opnd != 0 {
+			switch rapid.IntRange(0, 3).Draw(b.t, "slowkind") {
+			case 0:
+				b.emit(ref.Ins{Op: "addi", Rd: opnd, Rs1: b.reg("rs1"), Imm: rapid.Int32Range(-2, 2).Draw(b.t, "imm")})
+			default:
+				op := b.memOp(loadOps)
+				ea := b.addr(ref.AccessSize(op), "ea")
+				base, off := b.baseFor(ea)
+				b.emit(ref.Ins{Op: op, Rd: opnd, Rs1: base, Imm: off})
+				b.Meta["slowbranch"]++
+			}
+			st = b.State()
+			known = st.Err == nil
+		}
 	}
 	wantTaken := rapid.IntRange(0, 99).Draw(b.t, "taken") < b.P.TakenPct
 	taken := false
@@ -676,6 +709,272 @@ func Program(t *rapid.T, p Profile) *Case {
 		if p.MaxDyn > 0 && b.State().Steps > p.MaxDyn {
 			break
 		}
+	}
+	b.Exit()
+	b.Finish(c)
+	return c
+}
+
+// touchedLines returns the 64-byte lines the program built so far has accessed
+// (from a traced reference run).
+func (b *Builder) touchedLines() map[int32]bool {
+	r := ref.Run(&b.Prog, b.Init, ref.Options{MaxSteps: 50000, Trace: true})
+	m := map[int32]bool{}
+	for _, s := range r.Trace {
+		if s.Load || s.Store {
+			m[s.Addr/64] = true
+		}
+	}
+	return m
+}
+
+// addrIn picks an aligned address inside or outside the touched lines.
+func (b *Builder) addrIn(size int32, touched map[int32]bool, fresh bool, label string) int32 {
+	memSize := int32(len(b.Init.Mem))
+	lines := (memSize + 63) / 64
+	var cands []int32
+	for l := int32(0); l < lines; l++ {
+		if touched[l] != fresh {
+			cands = append(cands, l)
+		}
+	}
+	if len(cands) == 0 {
+		return b.addr(size, label)
+	}
+	line := cands[rapid.IntRange(0, len(cands)-1).Draw(b.t, label+"line")]
+	per := int32(64) / size
+	if (line+1)*64 > memSize {
+		per = (memSize - line*64) / size
+	}
+	if per < 1 {
+		return b.addr(size, label)
+	}
+	return line*64 + rapid.Int32Range(0, per-1).Draw(b.t, label+"off")*size
+}
+
+// Tail emits 1..5 controlled last instructions before the exit point: loads
+// that miss every cache or hit, stores to untouched or resident lines, stores
+// back to back, a dependent chain, a producer with no later reader.
+func (b *Builder) Tail() {
+	n := rapid.IntRange(1, 5).Draw(b.t, "taillen")
+	touched := b.touchedLines()
+	for i := 0; i < n; i++ {
+		k := rapid.IntRange(0, 7).Draw(b.t, "tailkind")
+		b.Meta[fmt.Sprintf("tail%d", k)]++
+		switch k {
+		case 0: // load missing every cache
+			op := b.memOp(loadOps)
+			ea := b.addrIn(ref.AccessSize(op), touched, true, "ea")
+			base, off := b.baseFor(ea)
+			b.emit(ref.Ins{Op: op, Rd: b.dest("rd"), Rs1: base, Imm: off})
+			touched[ea/64] = true
+		case 1: // load hitting
+			op := b.memOp(loadOps)
+			ea := b.addrIn(ref.AccessSize(op), touched, false, "ea")
+			base, off := b.baseFor(ea)
+			b.emit(ref.Ins{Op: op, Rd: b.dest("rd"), Rs1: base, Imm: off})
+			touched[ea/64] = true
+		case 2: // store to a never-touched line
+			op := b.memOp(storeOps)
+			ea := b.addrIn(ref.AccessSize(op), touched, true, "ea")
+			base, off := b.baseFor(ea)
+			b.emit(ref.Ins{Op: op, Rs2: b.reg("src"), Rs1: base, Imm: off})
+			touched[ea/64] = true
+		case 3: // store to a resident line
+			op := b.memOp(storeOps)
+			ea := b.addrIn(ref.AccessSize(op), touched, false, "ea")
+			base, off := b.baseFor(ea)
+			b.emit(ref.Ins{Op: op, Rs2: b.reg("src"), Rs1: base, Imm: off})
+			touched[ea/64] = true
+		case 4: // two stores back to back
+			for j := 0; j < 2; j++ {
+				op := b.memOp(storeOps)
+				ea := b.addrIn(ref.AccessSize(op), touched, j == 0, "ea")
+				base, off := b.baseFor(ea)
+				b.emit(ref.Ins{Op: op, Rs2: b.reg("src"), Rs1: base, Imm: off})
+				touched[ea/64] = true
+			}
+		case 5: // dependent chain
+			r := b.dest("chain")
+			b.emit(ref.Ins{Op: "addi", Rd: r, Rs1: b.reg("rs1"), Imm: 1})
+			b.emit(ref.Ins{Op: "add", Rd: r, Rs1: r, Rs2: r})
+			b.emit(ref.Ins{Op: "xori", Rd: r, Rs1: r, Imm: 85})
+		case 6: // a producer whose only consumer is the comparison at the end
+			b.emit(ref.Ins{Op: "li", Rd: b.dest("rd"), Imm: Value().Draw(b.t, "imm")})
+		default:
+			b.Alu()
+		}
+	}
+}
+
+// TailProgram draws a body followed by a controlled tail and an exit.
+func TailProgram(t *rapid.T, p Profile) *Case {
+	b, c := NewBuilder(t, p)
+	target := rapid.IntRange(p.MinLen, p.MaxLen).Draw(t, "len")
+	for b.Len() < target {
+		b.Construct()
+	}
+	b.Tail()
+	switch rapid.IntRange(0, 3).Draw(t, "exit") {
+	case 0, 1:
+		b.emit(ref.Ins{Op: "ret"})
+		b.Meta["exit_ret"]++
+	case 2:
+		// a forward branch to a final ret
+		l := b.label()
+		b.emit(ref.Ins{Op: "beq", Rs1: 0, Rs2: 0, Label: l})
+		b.emit(ref.Ins{Op: "li", Rd: b.dest("rd"), Imm: 99})
+		b.place(l)
+		b.emit(ref.Ins{Op: "ret"})
+		b.Meta["exit_branch_ret"]++
+	default:
+		b.Meta["exit_fall"]++
+	}
+	b.Finish(c)
+	return c
+}
+
+// Pair emits a conflicting pair of memory accesses (store->load, load->store,
+// store->store) to the same byte/half/word or to different bytes of one word
+// or line, at a drawn distance, through independent address registers, each
+// access made a hit or a miss by earlier touches, optionally separated by a
+// taken branch.
+func (b *Builder) Pair() {
+	if b.depth > 0 {
+		b.inLoopAtom()
+		return
+	}
+	memSize := int32(len(b.Init.Mem))
+	kind := rapid.IntRange(0, 2).Draw(b.t, "pairkind") // 0 store->load, 1 load->store, 2 store->store
+	word := rapid.Int32Range(0, memSize/4-1).Draw(b.t, "pairword") * 4
+	// overlap class: same bytes, same word different bytes, same line other word
+	ov := rapid.IntRange(0, 3).Draw(b.t, "pairoverlap")
+	w1 := rapid.IntRange(0, 2).Draw(b.t, "w1")
+	w2 := rapid.IntRange(0, 2).Draw(b.t, "w2")
+	sz1, sz2 := int32(1)<<w1, int32(1)<<w2
+	a1 := word + rapid.Int32Range(0, 4/sz1-1).Draw(b.t, "o1")*sz1
+	a2 := word + rapid.Int32Range(0, 4/sz2-1).Draw(b.t, "o2")*sz2
+	switch ov {
+	case 0: // identical access
+		sz2, a2 = sz1, a1
+	case 3: // another word of the same line
+		lineBase := word &^ 63
+		a2 = lineBase + rapid.Int32Range(0, min32(15, (memSize-lineBase)/4-1)).Draw(b.t, "lineword")*4
+		sz2 = 4
+	}
+	hit1 := rapid.Bool().Draw(b.t, "prewarm")
+	if hit1 {
+		// touch the line first so that the first access hits
+		b.emit(ref.Ins{Op: "lb", Rd: 0, Rs1: 0, Imm: word &^ 63})
+	}
+	// independent address registers holding the two addresses
+	st := b.State()
+	if st.Err != nil {
+		return
+	}
+	r1, r2 := RegPtr, RegPtr2
+	b.emit(ref.Ins{Op: "li", Rd: r1, Imm: a1 - 8})
+	b.emit(ref.Ins{Op: "li", Rd: r2, Imm: a2 + 12})
+	ld := func(sz int32) string { return map[int32]string{1: "lb", 2: "lh", 4: "lw"}[sz] }
+	sto := func(sz int32) string { return map[int32]string{1: "sb", 2: "sh", 4: "sw"}[sz] }
+	first, second := ref.Ins{}, ref.Ins{}
+	d1, d2 := b.reg("d1"), b.reg("d2")
+	switch kind {
+	case 0:
+		first = ref.Ins{Op: sto(sz1), Rs2: d1, Rs1: r1, Imm: 8}
+		second = ref.Ins{Op: ld(sz2), Rd: b.dest("rd"), Rs1: r2, Imm: -12}
+	case 1:
+		first = ref.Ins{Op: ld(sz1), Rd: b.dest("rd"), Rs1: r1, Imm: 8}
+		second = ref.Ins{Op: sto(sz2), Rs2: d2, Rs1: r2, Imm: -12}
+	default:
+		first = ref.Ins{Op: sto(sz1), Rs2: d1, Rs1: r1, Imm: 8}
+		second = ref.Ins{Op: sto(sz2), Rs2: d2, Rs1: r2, Imm: -12}
+	}
+	b.emit(first)
+	dist := rapid.IntRange(1, 12).Draw(b.t, "pairdist")
+	sep := rapid.IntRange(0, 3).Draw(b.t, "pairsep") == 0
+	save := b.noDest
+	b.noDest = map[int]bool{r1: true, r2: true}
+	for k, v := range save {
+		b.noDest[k] = v
+	}
+	if sep {
+		l := b.label()
+		b.emit(ref.Ins{Op: "beq", Rs1: 0, Rs2: 0, Label: l})
+		b.emit(ref.Ins{Op: "addi", Rd: b.dest("rd"), Rs1: 0, Imm: 7})
+		b.place(l)
+		b.Meta["pair_separated"]++
+	}
+	for i := 1; i < dist; i++ {
+		b.Alu()
+	}
+	b.noDest = save
+	b.emit(second)
+	b.Meta[fmt.Sprintf("pair_kind%d", kind)]++
+}
+
+// PairProgram draws a program made of conflicting pairs and filler.
+func PairProgram(t *rapid.T, p Profile) *Case {
+	b, c := NewBuilder(t, p)
+	n := rapid.IntRange(1, 4).Draw(t, "npairs")
+	for i := 0; i < n && b.Len() < 200; i++ {
+		for j := rapid.IntRange(0, 3).Draw(t, "filler"); j > 0; j-- {
+			b.Construct()
+		}
+		b.Pair()
+	}
+	// consume: fold a few loads of the words back into registers
+	b.Exit()
+	b.Finish(c)
+	return c
+}
+
+// FaultProgram draws a program that reaches a defined error (division by a
+// zero register, or a taken transfer to an undefined label) after a prefix.
+func FaultProgram(t *rapid.T, p Profile) *Case {
+	b, c := NewBuilder(t, p)
+	target := rapid.IntRange(0, p.MaxLen).Draw(t, "len")
+	for b.Len() < target {
+		b.Construct()
+	}
+	if rapid.IntRange(0, 2).Draw(t, "afterload") == 0 {
+		// right after a long-latency load
+		b.Load()
+	}
+	inLoop := rapid.IntRange(0, 3).Draw(t, "inloop") == 0
+	var l string
+	if inLoop {
+		b.emit(ref.Ins{Op: "li", Rd: RegCnt, Imm: rapid.Int32Range(1, 3).Draw(t, "iters")})
+		l = b.label()
+		b.place(l)
+		b.Alu()
+	}
+	switch rapid.IntRange(0, 4).Draw(t, "fault") {
+	case 0:
+		b.emit(ref.Ins{Op: "div", Rd: b.dest("rd"), Rs1: b.reg("rs1"), Rs2: 0})
+		b.Meta["fault_div"]++
+	case 1:
+		b.emit(ref.Ins{Op: "rem", Rd: b.dest("rd"), Rs1: b.reg("rs1"), Rs2: 0})
+		b.Meta["fault_rem"]++
+	case 2:
+		// a register that holds zero
+		z := b.dest("zreg")
+		b.emit(ref.Ins{Op: "sub", Rd: z, Rs1: z, Rs2: z})
+		b.emit(ref.Ins{Op: rapid.SampledFrom([]string{"div", "rem"}).Draw(t, "op"), Rd: b.dest("rd"), Rs1: b.reg("rs1"), Rs2: z})
+		b.Meta["fault_divreg"]++
+	case 3:
+		b.emit(ref.Ins{Op: "beq", Rs1: 0, Rs2: 0, Label: "nowhere"})
+		b.Meta["fault_branch_label"]++
+	default:
+		b.emit(ref.Ins{Op: rapid.SampledFrom([]string{"j", "jal"}).Draw(t, "op"), Rd: 0, Label: "nowhere"})
+		b.Meta["fault_jump_label"]++
+	}
+	if inLoop {
+		b.emit(ref.Ins{Op: "addi", Rd: RegCnt, Rs1: RegCnt, Imm: -1})
+		b.emit(ref.Ins{Op: "bnez", Rs1: RegCnt, Label: l})
+	}
+	for j := rapid.IntRange(0, 4).Draw(t, "after"); j > 0; j-- {
+		b.Alu()
 	}
 	b.Exit()
 	b.Finish(c)
